@@ -85,7 +85,7 @@ MInit(start) ==
   /\ ret = NoRet /\ fr = <<Fr(0)>> /\ memo = <<>> /\ seeds = <<>> /\ nmiss = 0 /\ done = FALSE /\ steps = 0
 
 \* ---------------------------------------------------------------- leaves
-LeafOps == {"tok", "pat", "opat", "dot", "const", "oconst", "constbad", "void", "fail", "eof", "eol", "cut", "emptyclosure", "meta"}
+LeafOps == {"tok", "pat", "opat", "dot", "const", "oconst", "oalert", "constbad", "void", "fail", "eof", "eol", "cut", "emptyclosure", "meta"}
 \* `cv` (trace mode): the evaluated value of a string constant ("oconst": interpolation / evaluation is C17's subject, not modelled
 \* here) is taken from the recorded "const" event
 NoCv == [ok |-> FALSE, v |-> None]
@@ -108,6 +108,8 @@ LeafW(cv) ==
                            ELSE fr' = Goto(fr, p) /\ ret' = RetKO /\ memo' = memo
        [] e.op = "const" -> fr' = AppendNode(Goto(fr, p), e.v) /\ ret' = RetOK(e.v) /\ memo' = memo
        [] e.op = "constbad" -> fr' = Goto(fr, p) /\ ret' = [k |-> "kosem"] /\ memo' = memo
+       [] e.op = "oalert" -> IF cv.ok THEN fr' = Goto(fr, p) /\ ret' = RetOK(None) /\ memo' = memo     \* ^`msg`: the message is evaluated, nothing appended
+                             ELSE fr' = Goto(fr, p) /\ ret' = [k |-> "kosem"] /\ memo' = memo
        [] e.op = "oconst" -> IF cv.ok THEN fr' = AppendNode(Goto(fr, p), cv.v) /\ ret' = RetOK(cv.v) /\ memo' = memo
                              ELSE fr' = Goto(fr, p) /\ ret' = [k |-> "kosem"] /\ memo' = memo
        [] e.op = "void" -> fr' = Goto(fr, p) /\ ret' = RetOK(Unit) /\ memo' = memo
